@@ -64,8 +64,8 @@ func init() {
 		RealCode:     []string{"autodiff Dense*Matrix / Sparse*Matrix (9 element types): Slice, ConstSlice, T, Tip, iterators, arithmetic, Row/Col/Diag, AsVector, String/Table, MarshalJSON/UnmarshalJSON, Export/Import"},
 		Stubs:        []string{"none (reference: index map over a flat []float64 + deep copy built through At().Set())"},
 		Caps:         map[string]int{"ops_per_run": 40, "rows": 5, "cols": 5, "view_depth": 3, "live_handles": 6},
-		QuickRuns:    30000,
-		ThoroughRuns: 3000000,
+		QuickRuns:    250000,
+		ThoroughRuns: 5000000,
 		Probes: []core.FindingProbe{
 			{ID: "C10-F2", Run: ProbeSparseT},
 		},
@@ -91,8 +91,8 @@ func init() {
 		RealCode:     []string{"autodiff Sparse*Vector (all 9 element types), their iterators, vectorSparseIndex/AvlTree, dense vectors as operands"},
 		Stubs:        []string{"none (reference model: []float64)"},
 		Caps:         map[string]int{"ops_per_run": 50, "dim": 12, "live_iterators": 3},
-		QuickRuns:    40000,
-		ThoroughRuns: 4000000,
+		QuickRuns:    250000,
+		ThoroughRuns: 6000000,
 	})
 	core.Register(&core.Property{
 		ID:     "C12",
@@ -118,7 +118,7 @@ func init() {
 		RealCode:     []string{"all container types and their Clone/As-conversions, arithmetic, iterators; algorithm/* entry points; verifhook.Tick (build tag verif)"},
 		Stubs:        []string{"objective functions of the optimizers (convex quadratics written with the library's AD scalars)"},
 		Caps:         map[string]int{"mutations_per_run": 16, "dim": 8, "matrix": 4, "ticks_per_loop_site": 3000},
-		QuickRuns:    40000,
-		ThoroughRuns: 3000000,
+		QuickRuns:    200000,
+		ThoroughRuns: 5000000,
 	})
 }
